@@ -7,4 +7,4 @@ Extraction "extract/prune_model.ml"
   Pruner.from_thrift Pruner.should_prune Pruner.rg_should_prune Pruner.scan_hinted Pruner.scan_all
   Pruner.project Pruner.conv Pruner.col_consts
   Glob.expand Glob.expand_stack Glob.spec_expand Glob.files
-  MultiFile.deal MultiFile.deal_mod MultiFile.text_multi MultiFile.text_reader_grow.
+  MultiFile.deal MultiFile.deal_mod MultiFile.text_multi MultiFile.text_reader_grow MultiFile.glob_multi MultiFile.glob_pull_norev.
